@@ -178,6 +178,78 @@ def runPeriods (stations : List String) (m : Mat K) : List (Period K) → Except
       | .error e => .error e
       | .ok (m'', cols) => .ok (m'', col :: cols)
 
+/-! ### `step()` and arbitrary growth -/
+
+/-- simulator.py:173-178 (`step`): `max(get_last_timestamp() + 1, iteration + 1)`, or `iteration + 1`
+    when the queue is empty -/
+def stepWidth (t : Nat) (lastTs : Option Nat) : Nat :=
+  match lastTs with
+  | some l => Nat.max (l + 1) (t + 1)
+  | none => t + 1
+
+/-- `periodStep` with the growth target as a parameter: optional `_update_schedules`, growth to
+    `target`, column `t`.  `run()` uses `runWidth`, `step()` uses `stepWidth`. -/
+def periodStepW (stations : List String) (m : Mat K) (p : Period K) (target : Nat) :
+    Except RunErr (Mat K × List K) :=
+  let m1 : Except RunErr (Mat K) :=
+    match p.sched with
+    | none => .ok m
+    | some s =>
+      match updateSchedules stations m p.t p.lastTs s with
+      | .ok m' => .ok m'
+      | .error e => .error (.sched e)
+  match m1 with
+  | .error e => .error e
+  | .ok m1 =>
+    let m2 := increaseWidth m1 target
+    match appliedColumn m2 p.t with
+    | some col => .ok (m2, col)
+    | none => .error .indexError
+
+/-- a sequence of loop trips (of `run()`, of `step()`, mixed), each with its own growth target -/
+def runTrips (stations : List String) (m : Mat K) :
+    List (Period K × Nat) → Except RunErr (Mat K × List (List K))
+  | [] => .ok (m, [])
+  | (p, w) :: ps =>
+    match periodStepW stations m p w with
+    | .error e => .error e
+    | .ok (m', col) =>
+      match runTrips stations m' ps with
+      | .error e => .error e
+      | .ok (m'', cols) => .ok (m'', col :: cols)
+
+/-- the loop trips of `run()` -/
+def tripsOfRun (ps : List (Period K)) : List (Period K × Nat) :=
+  ps.map fun p => (p, runWidth p.t p.lastTs)
+
+/-- simulator.py:160-188: one call `step(sched)` makes a loop trip at each `(t, lastTs)` of `its`
+    (how many there are is decided by the queue, `_resolve` and `max_recompute`: the event core's
+    business) and applies the SAME schedule in each. -/
+def tripsOfStep (sched : Sched K) (its : List (Nat × Option Nat)) : List (Period K × Nat) :=
+  its.map fun it => (⟨it.1, it.2, some sched⟩, stepWidth it.1 it.2)
+
+/-- a step-driven simulation: a list of `step(sched)` calls -/
+def tripsOfSteps (calls : List (Sched K × List (Nat × Option Nat))) : List (Period K × Nat) :=
+  calls.flatMap fun c => tripsOfStep c.1 c.2
+
+/-! ### what a scheduler sees of earlier pilots -/
+
+/-- interface.py:348-369 `Interface.last_applied_pilot_signals`: with `i = iteration − 1`, if `i > 0`
+    the dict `session ↦ pilot_signals[index_of_evse(station), i]` over the active EVs
+    `(session, station, arrival)` with `arrival ≤ i`, else `{}`.  `none` stands for the KeyError of
+    `index_of_evse` / numpy's IndexError. -/
+def lastApplied (stations : List String) (m : Mat K) (iteration : Nat)
+    (active : List (String × String × Nat)) : Option (List (String × K)) :=
+  if iteration ≤ 1 then some []      -- `i > 0` fails for iteration 0 (i = −1) and 1 (i = 0)
+  else
+    let i := iteration - 1
+    (active.filter fun a => decide (a.2.2 ≤ i)).mapM fun a =>
+      if stations.contains a.2.1 then
+        match m.rows[stations.idxOf a.2.1]? with
+        | some r => (r[i]?).map fun x => (a.1, x)
+        | none => none
+      else none
+
 /-- the submissions made in a list of periods -/
 def subsOf (ps : List (Period K)) : List (Submission K) :=
   ps.filterMap fun p => p.sched.map fun s => ⟨p.t, p.lastTs, s⟩
